@@ -536,13 +536,219 @@ Proof.
   - unfold wval. rewrite leval_rev, rev_involutive, V1, C1. reflexivity.
 Qed.
 
+(** [arith::div_ww]: the Möller–Granlund steps return quotient and remainder *)
+Section DivWW.
+Open Scope Z_scope.
+Lemma mg_core (B d M x1 x0 : Z) :
+  0 < d < B -> B <= 2 * d -> M * d <= B * B - 1 < M * d + d ->
+  0 <= x1 < d -> 0 <= x0 < B ->
+  let q := (M * x1 + x0) / B in
+  let R := x1 * B + x0 - d * q in
+  0 <= R < B + d /\ 0 <= q < B.
+Proof.
+  intros Hd HB HM Hx1 Hx0 q R.
+  assert (HM0 : 0 <= M) by nia.
+  set (N := M * x1 + x0) in *.
+  assert (HN : 0 <= N) by (subst N; nia).
+  pose proof (Z.div_mod N B ltac:(lia)) as E. fold q in E.
+  pose proof (Z.mod_pos_bound N B ltac:(lia)) as Hrho.
+  set (rho := N mod B) in *.
+  assert (EBR : B * R = x1 * (B * B - d * M) + x0 * (B - d) + d * rho).
+  { subst R. assert (B * q = N - rho) by lia.
+    replace (B * (x1 * B + x0 - d * q)) with (x1 * (B*B) + x0 * B - d * (B * q)) by ring.
+    rewrite H. subst N. ring. }
+  assert (H1 : 0 <= x1 * (B * B - d * M) <= (d - 1) * d) by nia.
+  assert (H2 : 0 <= x0 * (B - d) <= (B - 1) * (B - d)) by nia.
+  assert (H3 : 0 <= d * rho <= d * (B - 1)) by nia.
+  assert (R0 : 0 <= R) by nia.
+  assert (R1 : R < B + d) by (assert (B * R < B * (B + d)) by nia; nia).
+  assert (Q0 : 0 <= q) by (subst q; apply Z.div_pos; lia).
+  repeat split; auto.
+  subst R. nia.
+Qed.
+
+(** the normalised part of [div_ww], words in [0, B) *)
+Definition mg_words (B d m x1 x0 : Z) : Z * Z :=
+  let t1 := (m * x1) / B in
+  let t0 := (m * x1) mod B in
+  let c := if t0 + x0 <? B then 0 else 1 in
+  let qq := (t1 + x1 + c) mod B in
+  let dq1 := (d * qq) / B in
+  let dq0 := (d * qq) mod B in
+  let r0 := (x0 - dq0) mod B in
+  let b := if x0 <? dq0 then 1 else 0 in
+  let r1 := (x1 - dq1 - b) mod B in
+  let '(qq, r0) := if negb (r1 =? 0) then ((qq + 1) mod B, (r0 - d) mod B) else (qq, r0) in
+  let '(qq, r0) := if d <=? r0 then ((qq + 1) mod B, (r0 - d) mod B) else (qq, r0) in
+  (qq, r0).
+
+Lemma mg_words_spec B d m x1 x0 :
+  0 < d < B -> B <= 2 * d ->
+  0 <= m < B -> (m + B) * d <= B * B - 1 < (m + B) * d + d ->
+  0 <= x1 < d -> 0 <= x0 < B ->
+  mg_words B d m x1 x0 = ((x1 * B + x0) / d, (x1 * B + x0) mod d).
+Proof.
+  intros Hd HB2 Hm0 HM Hx1 Hx0.
+  pose proof (mg_core B d (m + B) x1 x0 Hd HB2 HM Hx1 Hx0) as C. cbv zeta in C.
+  destruct C as [[R0 R1] [Q0 Q1]].
+  unfold mg_words.
+  set (X := x1 * B + x0) in *.
+  assert (Eq : ((m + B) * x1 + x0) / B = (m * x1) / B + x1 + (if (m * x1) mod B + x0 <? B then 0 else 1)).
+  { pose proof (Z.div_mod (m * x1) B ltac:(lia)) as E.
+    pose proof (Z.mod_pos_bound (m * x1) B ltac:(lia)) as Hl.
+    set (t1 := m * x1 / B) in *. set (t0 := (m * x1) mod B) in *.
+    replace ((m + B) * x1 + x0) with ((t1 + x1) * B + (t0 + x0)) by nia.
+    destruct (Z.ltb_spec (t0 + x0) B).
+    - rewrite Z.div_add_l by lia. rewrite (Z.div_small (t0 + x0)) by lia. lia.
+    - replace ((t1 + x1) * B + (t0 + x0)) with ((t1 + x1 + 1) * B + (t0 + x0 - B)) by ring.
+      rewrite Z.div_add_l by lia. rewrite (Z.div_small (t0 + x0 - B)) by lia. lia. }
+  set (q := ((m + B) * x1 + x0) / B) in *.
+  rewrite <- Eq. rewrite (Z.mod_small q B) by lia.
+  set (R := X - d * q) in *. clear Eq. clearbody q.
+  pose proof (Z.div_mod (d * q) B ltac:(lia)) as Edq.
+  pose proof (Z.mod_pos_bound (d * q) B ltac:(lia)) as Hdq0.
+  set (dq1 := d * q / B) in *. set (dq0 := (d * q) mod B) in *.
+  assert (ER : R = (x1 - dq1) * B + (x0 - dq0)) by (subst R X; lia).
+  set (b := if x0 <? dq0 then 1 else 0).
+  assert (Er0 : (x0 - dq0) mod B = x0 - dq0 + b * B).
+  { subst b. destruct (Z.ltb_spec x0 dq0).
+    - replace (x0 - dq0) with (x0 - dq0 + B + (-1) * B) by ring. rewrite Z.mod_add by lia. rewrite Z.mod_small; lia.
+    - rewrite Z.mod_small; lia. }
+  assert (Hr0 : 0 <= x0 - dq0 + b * B < B) by (rewrite <- Er0; apply Z.mod_pos_bound; lia).
+  clearbody b dq1 dq0.
+  assert (ER' : R = (x1 - dq1 - b) * B + (x0 - dq0 + b * B)) by (rewrite ER; ring).
+  assert (Hr1 : 0 <= x1 - dq1 - b <= 1).
+  { clear Er0. set (r1 := x1 - dq1 - b) in *. split.
+    - destruct (Z.lt_ge_cases r1 0); [|lia]. exfalso.
+      assert (r1 * B <= (-1) * B) by (apply Z.mul_le_mono_nonneg_r; lia). lia.
+    - destruct (Z.lt_ge_cases 1 r1); [|lia]. exfalso.
+      assert (2 * B <= r1 * B) by (apply Z.mul_le_mono_nonneg_r; lia). lia. }
+  rewrite Er0. rewrite (Z.mod_small (x1 - dq1 - b) B) by lia.
+  set (r0 := x0 - dq0 + b * B) in *. set (r1 := x1 - dq1 - b) in *.
+  assert (ERX : X = d * q + r1 * B + r0) by (subst R; lia).
+  clearbody r0 r1. clear ER ER' Edq Hdq0 Er0.
+  assert (Fin : forall qf rf, X = d * qf + rf -> 0 <= rf < d -> (qf, rf) = (X / d, X mod d)).
+  { intros qf rf E Hr. f_equal.
+    - apply (Z.div_unique_pos X d qf rf); lia.
+    - apply (Z.mod_unique_pos X d qf rf); lia. }
+  destruct (Z.eqb_spec r1 0) as [Z1|Z1]; cbn [negb].
+  - assert (R = r0) by (subst R; lia).
+    destruct (Z.leb_spec d r0).
+    + rewrite (Z.mod_small (q + 1)) by nia. rewrite (Z.mod_small (r0 - d)) by lia.
+      apply Fin; subst R; lia.
+    + apply Fin; subst R; lia.
+  - assert (r1 = 1) by lia. assert (ERR : R = B + r0) by lia.
+    assert (Hq1 : q + 1 < B) by nia.
+    rewrite (Z.mod_small (q + 1)) by lia.
+    assert (Em : (r0 - d) mod B = r0 - d + B).
+    { replace (r0 - d) with (r0 - d + B + (-1) * B) by ring. rewrite Z.mod_add by lia. rewrite Z.mod_small; lia. }
+    rewrite Em.
+    destruct (Z.leb_spec d (r0 - d + B)).
+    + assert (q + 2 < B) by nia.
+      rewrite (Z.mod_small (q + 1 + 1)) by lia. rewrite (Z.mod_small (r0 - d + B - d)) by lia.
+      apply Fin; subst R; lia.
+    + apply Fin; subst R; lia.
+Qed.
+
+(** [a * 2^k | b = a * 2^k + b] when [b < 2^k] *)
+Lemma lor_shift_add a b k : 0 <= k -> 0 <= a -> 0 <= b < 2 ^ k -> Z.lor (a * 2 ^ k) b = a * 2 ^ k + b.
+Proof.
+  intros Hk Ha Hb.
+  assert (L : Z.land (a * 2 ^ k) b = 0).
+  { apply Z.bits_inj'. intros n Hn. rewrite Z.land_spec, Z.bits_0.
+    destruct (Z.lt_ge_cases n k).
+    - rewrite Z.mul_pow2_bits_low by lia. reflexivity.
+    - destruct (Z.eq_dec b 0) as [->|Hb0]; [rewrite Z.bits_0; apply andb_false_r|].
+      rewrite (Z.bits_above_log2 b n); [apply andb_false_r|lia|].
+      apply Z.log2_lt_pow2; try lia. apply Z.lt_le_trans with (2 ^ k); [lia|]. apply Z.pow_le_mono_r; lia. }
+  rewrite <- Z.lxor_lor by exact L. symmetry. apply Z.add_nocarry_lxor. exact L.
+Qed.
+
+Definition ZRADIX : Z := Z.of_N RADIX.
+Definition ZREC : Z := Z.of_N REC.
+
+Lemma zconsts :
+  leading_zeros ZRADIX = 5 /\ ZW = 2 ^ 59 * 2 ^ 5 /\ ZW128 = ZW * ZW
+  /\ 0 < ZRADIX * 2 ^ 5 < ZW /\ ZW <= 2 * (ZRADIX * 2 ^ 5)
+  /\ 0 <= ZREC < ZW
+  /\ (ZREC + ZW) * (ZRADIX * 2 ^ 5) <= ZW * ZW - 1 < (ZREC + ZW) * (ZRADIX * 2 ^ 5) + ZRADIX * 2 ^ 5.
+Proof. vm_compute. repeat split; discriminate. Qed.
+
+Lemma div_ww_z_exact x1 x0 :
+  0 <= x1 < ZRADIX -> 0 <= x0 < ZW ->
+  div_ww_z x1 x0 ZRADIX ZREC = Some ((x1 * ZW + x0) / ZRADIX, (x1 * ZW + x0) mod ZRADIX).
+Proof.
+  intros Hx1 Hx0.
+  destruct zconsts as [Hs [HW [HW2 [Hd [Hd2 [Hm HM]]]]]].
+  unfold div_ww_z. destruct (Z.ltb_spec x1 ZRADIX); [|lia]. cbn [negb].
+  rewrite Hs. change (5 =? 0) with false. cbv iota. change (64 - 5) with 59.
+  set (d := ZRADIX * 2 ^ 5) in *.
+  assert (Ewd : wrap d = d) by (unfold wrap; apply Z.mod_small; lia).
+  assert (P5 : 2 ^ 5 = 32) by reflexivity.
+  assert (P59 : 0 < 2 ^ 59) by (apply Z.pow_pos_nonneg; lia).
+  assert (Ex1 : wrap (x1 * 2 ^ 5) = x1 * 2 ^ 5) by (unfold wrap; apply Z.mod_small; subst d; nia).
+  assert (Hhi : 0 <= x0 / 2 ^ 59 < 2 ^ 5).
+  { split; [apply Z.div_pos; lia|]. apply Z.div_lt_upper_bound; lia. }
+  rewrite Ex1, Ewd, lor_shift_add by lia.
+  assert (Ex0 : wrap (x0 * 2 ^ 5) = (x0 mod 2 ^ 59) * 2 ^ 5).
+  { unfold wrap. rewrite HW. apply Z.mul_mod_distr_r; lia. }
+  rewrite Ex0.
+  set (y1 := x1 * 2 ^ 5 + x0 / 2 ^ 59) in *.
+  set (y0 := x0 mod 2 ^ 59 * 2 ^ 5) in *.
+  assert (Hy1 : 0 <= y1 < d) by (subst y1 d; nia).
+  assert (Hy0 : 0 <= y0 < ZW).
+  { pose proof (Z.mod_pos_bound x0 (2 ^ 59) P59). subst y0. nia. }
+  assert (EX : y1 * ZW + y0 = 2 ^ 5 * (x1 * ZW + x0)).
+  { subst y1 y0. pose proof (Z.div_mod x0 (2 ^ 59) ltac:(lia)) as E. rewrite HW. nia. }
+  assert (NZ5 : 2 ^ 5 <> 0) by (rewrite P5; discriminate).
+  assert (NZR : ZRADIX <> 0) by (vm_compute; discriminate).
+  assert (Fq : (y1 * ZW + y0) / d = (x1 * ZW + x0) / ZRADIX).
+  { rewrite EX. unfold d. rewrite (Z.mul_comm ZRADIX). apply Z.div_mul_cancel_l; assumption. }
+  assert (Fr : ((y1 * ZW + y0) mod d) / 2 ^ 5 = (x1 * ZW + x0) mod ZRADIX).
+  { rewrite EX. unfold d. rewrite (Z.mul_comm ZRADIX), Z.mul_mod_distr_l by assumption.
+    rewrite Z.mul_comm. apply Z.div_mul. assumption. }
+  (* the normalised steps are [mg_words] *)
+  unfold mul64, wrap.
+  assert (Pm : 0 <= ZREC * y1 < ZW128).
+  { clear - Hm Hy1 Hd HW2. rewrite HW2. clearbody y1 d. nia. }
+  rewrite (Z.mod_small (ZREC * y1) ZW128) by exact Pm.
+  rewrite Z.add_mod_idemp_l by lia.
+  set (qq := (ZREC * y1 / ZW + y1 + (if (ZREC * y1) mod ZW + y0 <? ZW then 0 else 1)) mod ZW) in *.
+  assert (Hqq : 0 <= qq < ZW) by (subst qq; apply Z.mod_pos_bound; lia).
+  assert (Pd : 0 <= d * qq < ZW128).
+  { clear - Hqq Hd HW2. rewrite HW2. clearbody qq d. nia. }
+  rewrite (Z.mod_small (d * qq) ZW128) by exact Pd.
+  rewrite Zminus_mod_idemp_l.
+  pose proof (mg_words_spec ZW d ZREC y1 y0 Hd Hd2 Hm HM Hy1 Hy0) as MG.
+  unfold mg_words in MG. fold qq in MG.
+  rewrite <- Fq, <- Fr. clear Fq Fr EX.
+  clearbody qq d y0 y1.
+  revert MG.
+  repeat (cbv beta iota; match goal with |- context [if ?c then _ else _] => destruct c end);
+    cbv beta iota; intros MG; apply pair_equal_spec in MG; destruct MG as [E1 E2]; rewrite <- E1, <- E2; reflexivity.
+Qed.
+
+End DivWW.
+Close Scope Z_scope.
+
 (** [quo_radix] *)
+Lemma div_ww_exact r x : r < RADIX -> x < W64 ->
+  div_ww r x RADIX REC = Some ((r * W64 + x) / RADIX, (r * W64 + x) mod RADIX).
+Proof.
+  intros Hr Hx. unfold div_ww.
+  assert (EW : Z.of_N W64 = ZW) by reflexivity.
+  fold ZRADIX. fold ZREC.
+  rewrite div_ww_z_exact by (unfold ZRADIX; rewrite <- ?EW; lia).
+  unfold ZRADIX. rewrite <- EW, <- N2Z.inj_mul, <- N2Z.inj_add, <- N2Z.inj_div, <- N2Z.inj_mod, !N2Z.id.
+  reflexivity.
+Qed.
+
 Lemma div_ww_spec r x : r < RADIX -> x < W64 ->
-  exists q r', div_ww r x RADIX = Some (q, r')
+  exists q r', div_ww r x RADIX REC = Some (q, r')
   /\ q * RADIX + r' = r * W64 + x /\ r' < RADIX /\ q < W64.
 Proof.
-  intros Hr Hx. unfold div_ww. pose proof RADIX_pos as HR.
-  destruct (N.ltb_spec r RADIX); [|lia].
+  intros Hr Hx. pose proof RADIX_pos as HR.
+  rewrite div_ww_exact by auto.
   set (z := r * W64 + x).
   exists (z / RADIX), (z mod RADIX). split; [reflexivity|].
   split; [|split].
